@@ -2672,13 +2672,18 @@ fn convert_number_to_type2<'a>(
         return Ok(ast::Type2::IntValue { value: val, span });
       }
       Rule::float_value => {
-        let val = inner.as_str().parse::<f64>().map_err(|_| Error::PARSER {
-          position: pest_span_to_position(&inner.as_span(), input),
-          msg: ErrorMsg {
-            short: "Invalid float".to_string(),
-            extended: None,
-          },
-        })?;
+        let val = inner
+          .as_str()
+          .parse::<f64>()
+          .ok()
+          .filter(|v| v.is_finite())
+          .ok_or_else(|| Error::PARSER {
+            position: pest_span_to_position(&inner.as_span(), input),
+            msg: ErrorMsg {
+              short: "Invalid float".to_string(),
+              extended: None,
+            },
+          })?;
         return Ok(ast::Type2::FloatValue { value: val, span });
       }
       Rule::hexfloat => {
@@ -2742,12 +2747,17 @@ fn convert_number_to_type2<'a>(
         return Ok(ast::Type2::IntValue { value: val });
       }
       Rule::float_value => {
-        let val = inner.as_str().parse::<f64>().map_err(|_| Error::PARSER {
-          msg: ErrorMsg {
-            short: "Invalid float".to_string(),
-            extended: None,
-          },
-        })?;
+        let val = inner
+          .as_str()
+          .parse::<f64>()
+          .ok()
+          .filter(|v| v.is_finite())
+          .ok_or_else(|| Error::PARSER {
+            msg: ErrorMsg {
+              short: "Invalid float".to_string(),
+              extended: None,
+            },
+          })?;
         return Ok(ast::Type2::FloatValue { value: val });
       }
       Rule::hexfloat => {
